@@ -32,7 +32,9 @@ ASSUMPTIONS = list(G.ASSUMPTIONS) + [
     'documented domain: the std::string counterpart is defined and does not throw; (pointer, count) arguments with '
     'count <= strlen; find family / contains with a non-empty needle and a start position inside the string or the '
     'default of the overload; insert/erase iterators not end(); pop_back/front/back on a non-empty string; '
-    'repeat counts up to 2^20; at(length) is documented by the class as returning the terminator and is outside',
+    'repeat counts up to 2^20; at(length) is documented by the class as returning the terminator and is outside; '
+    'for the strchr() based overloads of the four character-class searches: no NUL character in the text and in the '
+    'character set (FindOk in Properties_C11.v)',
 ]
 
 
@@ -112,6 +114,8 @@ def classify(case, ir, mr):
         return G.classify(case, ir, mr)
     i, op, why = _first_diff(case, ir)
     if i is not None:
+        if op.startswith('Frfind_ch:00:'):
+            return 'rfind_ch_nul'
         return G.op_family(op)
     for i, (a, b) in enumerate(zip(steps(ir), steps(mr))):
         if a != b:
@@ -120,23 +124,32 @@ def classify(case, ir, mr):
 
 
 CLAIM = {
-    'text': 'Coq theorems (Properties_C11.v): for every capacity, every well-formed object and every argument inside the '
-            'documented domain, each of the 40 modelled modifying entry points (constructors, assign, insert / erase / '
-            'push_back / pop_back / append / sprintf / replace families incl. iterator overloads, swap, clear) leaves exactly '
-            'the text std::string has after the same operation, cut at L (C11_mutators_refine); the 9 compare overloads, '
-            'starts_with, substr, copy, at/front/back/length/empty/str, == and != and the traversal in both directions return '
-            'what std::string returns (C11_observers_refine_partial, C11_iteration_forward/reverse); == and != are '
-            'complementary for all operands. The std::string specification '
-            '(FsStd.v) is itself run against the real libstdc++ std::string in the harness. ends_with, contains, the 30 find '
-            'overloads and single iterator steps (--, +=, -=) are covered by the correspondence check only (model = code and '
-            'code = std::string on every in-domain case of the exhaustive small scopes and the random histories). Seven '
-            'deviations of the pinned tree were found and repaired (fixes/C11-1..3, C10-2, C10-4, C10-5, C10-7).',
+    'text': 'Coq theorems (Properties_C11.v), all closed under the global context: for every capacity, every well-formed pair '
+            'of objects and every argument inside the documented domain, (1) each of the 40 modelled modifying entry points '
+            '(constructors, assign, insert / erase / push_back / pop_back / append / sprintf / replace families incl. iterator '
+            'overloads, swap, clear) leaves exactly the text std::string has after the same operation, cut at L '
+            '(C11_mutators_refine); (2) each of the 49 observing entry points - the 9 compare overloads, starts_with / ends_with '
+            '/ contains (4 overloads each), substr, copy, at/front/back/length/empty/str, == and !=, the traversal in both '
+            'directions, single iterator steps ++ / -- / += / -= with operator*, and all 30 overloads of find, rfind, '
+            'find_first_of, find_first_not_of, find_last_of, find_last_not_of - returns exactly what std::string returns on the '
+            'same text and changes nothing (C11_observers_refine); (3) both in one statement (C11_step_refines) and along any '
+            'history of operations, with the std::string texts cut at L after every step (C11_history_refines); (4) == and != '
+            'are complementary for all operands. The std::string specification (FsStd.v) is itself run against the real '
+            'libstdc++ std::string in the harness; the model is tied to the code by the correspondence check (exhaustive '
+            'small scopes, random histories). Eight deviations of the pinned tree were found; seven are repaired in /repo '
+            '(fixes/C11-1..3, C10-2, C10-4, C10-5, C10-7), the eighth (rfind of the NUL character, found while proving the '
+            'find family) is a known finding with the repair ready in fixes/C11-4-rfind-char-terminator.patch.',
     'note': 'trusted: Coq kernel, extraction, the hand-written model and specification (both validated by correspondence on '
-            'every run), the harness, libstdc++ as reference. Deliberately outside the domain (decided in DESIGN.md section 8): '
-            'at(length) returning the terminator, empty needles for find/contains, backward searches with an explicit start '
-            'position >= length, insert/erase at end() through iterators (documented as invalid by the class). Not modelled: '
-            'see the note of C10.',
+            'every run), the harness, libstdc++ as reference. Domain (part of the statements: std_step = Some, CstrsOk, '
+            'FindOk): the std::string counterpart is defined and does not throw; C string arguments end at their terminator; '
+            'for the strchr() based overloads of find_first_of / find_first_not_of / find_last_of / find_last_not_of '
+            '(FixedString, std::string and C string needle) neither the text nor the character set holds a NUL character; '
+            'deliberately outside (DESIGN.md section 8): at(length) returning the terminator, empty needles for find/contains, '
+            'backward searches with an explicit start position >= length, insert/erase at end() through iterators. The model '
+            'of rfind( ch) mirrors the code with fixes/C11-4 applied; until that patch is in /repo the one corpus case '
+            'rfind( NUL) is reported as KNOWN-FINDING. Not modelled: see the note of C10.',
     'technique': 'Coq refinement proof (abstraction to the text, std::string operations as list functions, pointwise list '
-                 'reasoning); differential correspondence check against FixedString<L> and std::string',
+                 'reasoning, least/greatest-position characterisation of the search loops, induction over histories); '
+                 'differential correspondence check against FixedString<L> and std::string',
     'design_ref': 'DESIGN.md section 5, C10/C11; section 8 rows 3, 6-10',
 }
